@@ -152,6 +152,27 @@ func (f *frame) doCall(v *ssa.Call, st *State, reach string) {
 		}
 	}
 	name := callee.String()
+	if rc := f.rootCtr(); rc != nil {
+		for cn, set := range rc.GhostCalls {
+			if shortFn(callee) == cn || callee.Name() == cn {
+				ai := 0
+				if callee.Signature.Recv() != nil {
+					ai = 1
+				}
+				if ai >= len(args) {
+					panic("ghostcall: " + cn + " has no argument")
+				}
+				n := "G_" + set
+				if _, ok := e.hsort[n]; !ok {
+					e.hsort[n] = fmt.Sprintf("(Array %s Bool)", e.sc.sortOf(args[ai].typ))
+				}
+				h := e.heapByName(st, n)
+				st.heaps[n] = e.define(n, e.hsort[n], fmt.Sprintf("(store %s %s true)", h, args[ai].term))
+				f.freshResults(v, reach, false)
+				return
+			}
+		}
+	}
 	if ctr, ok := e.contracts[name]; ok && (ctr.Mode == e.sc.arith || ctr.Mode == "both") {
 		f.callByContract(v, callee, ctr, args, st, reach)
 		return
